@@ -18,6 +18,7 @@ type Note struct {
 var (
 	activity atomic.Uint64
 	inflight atomic.Int64
+	busy     atomic.Int64
 	calls    atomic.Uint64
 
 	mu       sync.Mutex
@@ -123,6 +124,12 @@ func WrapGo(cb func()) func() {
 		cb()
 	}
 }
+
+// Busy tracks workers that are executing queued closures.
+func Busy(d int64) { busy.Add(d) }
+
+// BusyCount returns the number of workers currently executing closures.
+func BusyCount() int64 { return busy.Load() }
 
 // Inflight returns the number of wrapped goroutines not yet finished.
 func Inflight() int64 { return inflight.Load() }
